@@ -958,3 +958,58 @@ func fieldFeeds(fn *ssa.Function, pkgSuffix, typeName, field string) []feed {
 	}
 	return out
 }
+
+// liveBlocks: the blocks of fn that can be reached from its entry when an If on a constant
+// (`if false { return err }`) is only followed the way the constant says. go/ssa keeps both arms of
+// such an If; a use that stands in the dead arm is no use.
+func liveBlocks(fn *ssa.Function) map[*ssa.BasicBlock]bool {
+	live := map[*ssa.BasicBlock]bool{}
+	if len(fn.Blocks) == 0 {
+		return live
+	}
+	work := []*ssa.BasicBlock{fn.Blocks[0]}
+	if fn.Recover != nil {
+		work = append(work, fn.Recover)
+	}
+	for len(work) > 0 {
+		b := work[len(work)-1]
+		work = work[:len(work)-1]
+		if live[b] {
+			continue
+		}
+		live[b] = true
+		succs := b.Succs
+		if len(b.Instrs) > 0 && len(b.Succs) == 2 {
+			if ifi, ok := b.Instrs[len(b.Instrs)-1].(*ssa.If); ok {
+				if k, isC := ifi.Cond.(*ssa.Const); isC && k.Value != nil && k.Value.Kind() == constant.Bool {
+					if constant.BoolVal(k.Value) {
+						succs = b.Succs[:1]
+					} else {
+						succs = b.Succs[1:]
+					}
+				}
+			}
+		}
+		work = append(work, succs...)
+	}
+	return live
+}
+
+// liveReferrers: the referrers of v that stand in live blocks of their function.
+func liveReferrers(v ssa.Value) []ssa.Instruction {
+	if v.Referrers() == nil {
+		return nil
+	}
+	var out []ssa.Instruction
+	cache := map[*ssa.Function]map[*ssa.BasicBlock]bool{}
+	for _, r := range *v.Referrers() {
+		f := r.Parent()
+		if cache[f] == nil {
+			cache[f] = liveBlocks(f)
+		}
+		if cache[f][r.Block()] {
+			out = append(out, r)
+		}
+	}
+	return out
+}
